@@ -3,7 +3,7 @@ import json
 
 IMPORTS = ("From Coq Require Import String.\n"
            "From Ergo Require Import Common.Base Common.Bytes Common.Codec Edf.Model Edf.Cases "
-           "Hostile.Alloc Hostile.Frames Hostile.Cases.\n"
+           "Hostile.Alloc Hostile.Frames Hostile.HsMsg Hostile.Cases.\n"
            "Local Open Scope N_scope.\n")
 
 # input classes of known findings: generated only when known_findings.json lists the tag
@@ -63,6 +63,21 @@ def _hs(c, name, n, seed=None, replay=None):
     c.monitor(name, out)
 
 
+def _hsnode(c, name, replay=None):
+    """a real node against a peer that knows the cookie and sends invalid MessageIntroduce / MessageAccept fields"""
+    import os
+    a = ["hsnode"]
+    if replay:
+        a += ["-replay", replay]
+    else:
+        a += ["-corpus", os.path.join(os.path.dirname(os.path.dirname(os.path.dirname(os.path.abspath(__file__)))), "corpus", "C16")]
+    out = c.harness("hostile", a, timeout=600)
+    if not out:
+        return
+    out["monitor"] = out.get("monitor") or []
+    c.cases(name, out, IMPORTS, "ncase", corr=["corr_hsnode"], spec=["spec_hsnode"], premise=["premise_hsnode"])
+
+
 def run(c):
     c.proofs("theories/Properties/C16.v", clean=(c.tier == "thorough"))
     import vlib
@@ -78,6 +93,8 @@ def run(c):
             eng = ""
         if eng.startswith("frames"):
             _frames(c, "frames", 1, replay=c.replay)
+        elif eng.startswith("hsnode"):
+            _hsnode(c, "hsnode", replay=c.replay)
         elif eng.startswith("hs"):
             _hs(c, "hs", 1, replay=c.replay)
         else:
@@ -86,6 +103,7 @@ def run(c):
         _edf(c, "edf", n_edf)
         _frames(c, "frames", n_fr)
         _hs(c, "hs", n_hs)
+        _hsnode(c, "hsnode")
         if c.broken and not c.violations:
             # something no longer checks: extra search budget on the property monitors only
             keep = list(c.broken)
@@ -96,7 +114,7 @@ def run(c):
     c.cov["rule"] = ("distinct = different Coq case term (options, input bytes, observation); non-trivial (edf) = the model accepts "
                      "the input, the bound of C16_alloc_accepted_linear holds in the model and the guard of C16_idempotent holds on "
                      "the decoded value; non-trivial (frames) = at least one frame passed the header checks and the model predicts "
-                     "survival")
+                     "survival; non-trivial (hsnode) = the handshake message is invalid (C16_hs_invalid_rejected applies)")
     c.assumptions += [
         "the real decoder / handshake / connection run in child processes under `ulimit -v` (3 GiB / 2 GiB) and a timeout: "
         "no crash, no hang and bounded memory of the Go runtime are OBSERVED per input, not proved",
@@ -107,5 +125,7 @@ def run(c):
         "validation before the allocation is not modelled",
         "Go values reach the model through the harness' reflect-based printer (shared with the Edf engine)",
         "edf.Marshaler / encoding.BinaryMarshaler types and options.Cache are outside the decoder model (as in C11)",
+        "hsnode: real nodes on localhost TCP; the hostile party knows the cookie (digests are correct), only the declared fields are hostile; "
+        "the out-of-memory threshold of the pool-size model (2^22 queues) is the one observed under the 2 GiB limit",
         "frames: the fake gen.Core stands for the node; 'local process' and the unrelated connection live in the same child process",
     ]
